@@ -13,7 +13,7 @@ from vlib.view import view, L
 from mirsym import Program, Interp, models, Lazy, Opaque, syn_models, harness_models  # noqa: F401
 from props import recv_spec as S
 from props.recv_common import (Pol, Oracle, E, list_items, classify_names, flat_errors, match_errors, value_eqs, Text, render_items,
-                               ident_validity, native_value, native_errors, compare_native_errors_nospan, model_str, OPTS)
+                               ident_validity, native_value, native_errors, compare_native_errors_nospan, model_str, OPTS, replay_panic, render_meta_text)
 
 
 def variants_by_name(en):
@@ -221,6 +221,12 @@ def enum_job(ck, prog, natbin, ename, quick):
     ck.absorb(I, leaves, "entry_%s_list_flat" % ename)
     ck.check_exhaustive(I, leaves, ename + ":list")
     for l in leaves:
+        if l.status == "panicked":
+            mdl = ck.model_of(list(l.pc) + ident_validity(l)) or ck.model_of(l.pc)
+            text = Text()
+            render_items(l, mdl, "items*", text, uniq)
+            replay_panic(ck, native, ename + ":from_list", l, "(from_list %s %s)" % (ename, sx_str(text.s)))
+            continue
         if l.status != "returned":
             ck.obligations += 1
             ck.engine("%s from_list: %s %s" % (ename, l.status, l.info or l.panics))
@@ -280,6 +286,10 @@ def enum_job(ck, prog, natbin, ename, quick):
     lit_t = prog.find_ty("syn::Lit")
     expr_t = prog.find_ty("syn::Expr")
     for l in leaves:
+        if l.status == "panicked":
+            mdl = ck.model_of(list(l.pc) + ident_validity(l)) or ck.model_of(l.pc)
+            replay_panic(ck, native, ename + ":from_meta", l, "(from_meta %s %s)" % (ename, sx_str(render_meta_text(l, mdl, uniq).s)))
+            continue
         if l.status != "returned":
             ck.obligations += 1
             ck.engine("%s from_meta: %s %s" % (ename, l.status, l.info or l.panics))
